@@ -387,7 +387,7 @@ func nCommitsBefore(l *Log, start Pos, i int) int {
 	for _, f := range l.Files {
 		for _, u := range f.Units {
 			switch u.U {
-			case "txxid", "txcommit", "txrollback", "ddl", "autorow", "stmtdml":
+			case "txxid", "txcommit", "txrollback", "ddl", "autorow", "stmtdml", "xidalone", "commitalone":
 				last[u.Evs[len(u.Evs)-1]] = true
 			}
 		}
@@ -1054,6 +1054,16 @@ func modeC08(e *Env) {
 		}
 		id++
 		repeatedValues(e, id, cfgs[e.R.Intn(len(cfgs))], cols, "repeated-values")
+	}
+	// MariaDB-shaped transactions (no BEGIN: every rows event commits on its own and the XID that follows closes nothing): the
+	// empty transactions such commit events deliver are kept and read again like all others
+	for i := 0; i < e.N(2, 10); i++ {
+		l := logFromAbstract(e.R, cfgs[e.R.Intn(len(cfgs))], smallGP(), []interface{}{"autorow", "xidalone", "autorow", "xidalone", "commitalone", "txxid", "xidalone", "xidalone"})
+		a := defaultAttempt()
+		a.Scribble = i%2 == 0
+		id++
+		RunStreamScenario(e.Rec, &StreamScenario{ID: id, Fam: "c08", Log: l, Start: l.Boundaries()[0], ServerID: 21,
+			Attempts: []AttemptPlan{a}, Note: "commits-that-close-nothing"})
 	}
 	// statements of one session (the same charset from statement to statement, one statement of another session in between),
 	// all kept until the stream has ended and then overwritten one after the other: what two statements share shows
